@@ -6,40 +6,6 @@ import Arca.Proofs.EngineApi
 namespace Arca.Proofs.EngineApi
 open Arca.Model.EngineApi
 
-section
-variable {P I D : Type}
-
-/-- a sub-workflow cache, when there is one, carries the absolute spelling of the root directory -/
-theorem subworkflowCache_root (env : Env P I D) (fuel : Nat) (wf : Wf) (rootDir : String)
-    (caches : List (Option FileCache)) (parents : List String) (sc : FileCache)
-    (h : subworkflowCache env fuel wf rootDir caches parents = .ok (some sc)) :
-    sc.rootDir = env.abs rootDir := by
-  cases fuel with
-  | zero => simp [subworkflowCache] at h
-  | succ n =>
-    simp only [subworkflowCache] at h
-    split at h
-    · cases h
-    · split at h
-      · cases h
-      · rename_i stepCache hload
-        split at h
-        · cases h
-        · rename_i cs hvisit
-          split at h
-          · cases h
-          · rename_i m hm
-            cases h
-            have := mergeFrom_append_root env.abs cs stepCache _ _ hm
-            rw [this]
-            exact (loadCache_spec env rootDir wf.refs stepCache hload).1
-
-/-- a workflow without foreach steps has no sub-workflow cache -/
-theorem subworkflowCache_no_refs (env : Env P I D) (fuel : Nat) (wf : Wf) (rootDir : String)
-    (caches : List (Option FileCache)) (parents : List String) (h : wf.refs = []) :
-    subworkflowCache env (fuel + 1) wf rootDir caches parents = .ok none := by
-  simp [subworkflowCache, h]
-
 /-- two folds agree when their step functions agree on the accumulators an invariant describes -/
 theorem foldl_congr_inv {α β : Type} (F G : β → α → β) (Inv : β → Prop)
     (hFG : ∀ b a, Inv b → F b a = G b a) (hInv : ∀ b a, Inv b → Inv (G b a)) :
@@ -53,13 +19,261 @@ theorem foldl_congr_inv {α β : Type} (F G : β → α → β) (Inv : β → Pr
     rw [hFG b x hb]
     exact ih (G b x) (hInv b x hb)
 
+/-- an invariant of the step function is an invariant of the fold -/
+theorem foldl_inv {α β : Type} (F : β → α → β) (Inv : β → Prop) (h : ∀ b a, Inv b → Inv (F b a)) :
+    ∀ (l : List α) (b : β), Inv b → Inv (l.foldl F b) := by
+  intro l
+  induction l with
+  | nil => intro b hb; exact hb
+  | cons x r ih => intro b hb; exact ih (F b x) (h b x hb)
+
+/-! ### the root directories of the caches sub-workflow discovery collects
+
+Every cache loaded from disk carries `filepath.Abs(rootDir)`.  Since the caller's files are followed without being
+loaded, a workflow whose references are all supplied merges the caches collected so far, and `MergeFileCaches` of a list
+of nil caches is a cache with the EMPTY root directory.  Such a cache only arises while nothing has been loaded yet, so
+in every list that is merged the caches with the empty root come first: `Sorted`. -/
+
 /-- every cache of the list carries the root directory string `a` -/
 def AllRoot (a : String) (cs : List (Option FileCache)) : Prop := ∀ c, some c ∈ cs → c.rootDir = a
 
-/-- invariant of the visit loop -/
-def VisitInv (a : String) : Except Err (List (Option FileCache)) → Prop
-  | .ok cs => AllRoot a cs
+/-- caches with the empty root directory, then caches with the root directory `a` -/
+def Sorted (a : String) (cs : List (Option FileCache)) : Prop :=
+  ∃ pre post, cs = pre ++ post ∧ AllRoot "" pre ∧ AllRoot a post
+
+theorem allRoot_nil (a : String) : AllRoot a [] := fun c hc => by cases hc
+
+theorem sorted_nil (a : String) : Sorted a [] := ⟨[], [], rfl, allRoot_nil _, allRoot_nil _⟩
+
+theorem allRoot_append {a : String} {l₁ l₂ : List (Option FileCache)} (h₁ : AllRoot a l₁) (h₂ : AllRoot a l₂) :
+    AllRoot a (l₁ ++ l₂) := fun c hc => by
+  rcases List.mem_append.mp hc with h | h
+  · exact h₁ c h
+  · exact h₂ c h
+
+theorem allRoot_left {a : String} {l₁ l₂ : List (Option FileCache)} (h : AllRoot a (l₁ ++ l₂)) : AllRoot a l₁ :=
+  fun c hc => h c (List.mem_append_left _ hc)
+
+theorem allRoot_single {a : String} {c : FileCache} (h : c.rootDir = a) : AllRoot a [some c] := fun c' hc => by
+  simp only [List.mem_singleton, Option.some.injEq] at hc
+  subst hc
+  exact h
+
+theorem allRoot_none (a : String) : AllRoot a [none] := fun c hc => by simp at hc
+
+theorem sorted_append_none {a : String} {cs : List (Option FileCache)} (h : Sorted a cs) : Sorted a (cs ++ [none]) := by
+  obtain ⟨pre, post, he, h₁, h₂⟩ := h
+  exact ⟨pre, post ++ [none], by rw [he, List.append_assoc], h₁, allRoot_append h₂ (allRoot_none a)⟩
+
+theorem sorted_append_root {a : String} {cs : List (Option FileCache)} {c : FileCache} (h : Sorted a cs)
+    (hc : c.rootDir = a) : Sorted a (cs ++ [some c]) := by
+  obtain ⟨pre, post, he, h₁, h₂⟩ := h
+  exact ⟨pre, post ++ [some c], by rw [he, List.append_assoc], h₁, allRoot_append h₂ (allRoot_single hc)⟩
+
+theorem sorted_append_empty {a : String} {cs : List (Option FileCache)} {c : FileCache} (h : AllRoot "" cs)
+    (hc : c.rootDir = "") : Sorted a (cs ++ [some c]) :=
+  ⟨cs ++ [some c], [], by simp, allRoot_append h (allRoot_single hc), allRoot_nil a⟩
+
+/-- caches that all carry the root directory string `a`, merged into an accumulator whose root is empty or `a`: the merge
+    succeeds whatever `filepath.Abs` is; the root of the result is `a` if there is a non-nil cache, else the accumulator's -/
+theorem mergeFrom_allRoot (abs : String → String) (a : String) (cs : List (Option FileCache)) (acc : FileCache)
+    (hacc : acc.rootDir = "" ∨ acc.rootDir = a) (hcs : AllRoot a cs) :
+    ∃ m, mergeFrom abs acc cs = .ok m ∧ ((∃ c, some c ∈ cs) → m.rootDir = a) ∧
+      ((∀ c, ¬ some c ∈ cs) → m.rootDir = acc.rootDir) := by
+  induction cs generalizing acc with
+  | nil => exact ⟨acc, rfl, fun h => (by obtain ⟨c, hc⟩ := h; cases hc), fun _ => rfl⟩
+  | cons x r ih =>
+    have hr : AllRoot a r := fun c hc => hcs c (List.mem_cons_of_mem _ hc)
+    cases x with
+    | none =>
+      obtain ⟨m, hm, h₁, h₂⟩ := ih acc hacc hr
+      refine ⟨m, hm, fun h => ?_, fun hn => h₂ (fun c hc => hn c (List.mem_cons_of_mem _ hc))⟩
+      obtain ⟨c, hc⟩ := h
+      cases hc with
+      | tail _ hc' => exact h₁ ⟨c, hc'⟩
+    | some fc =>
+      have hfc : fc.rootDir = a := hcs fc List.mem_cons_self
+      have hstep := mergeStep_pass (abs := abs) (acc := acc) (fc := fc) (by
+        cases hacc with
+        | inl h0 => exact Or.inl h0
+        | inr h1 => exact Or.inr ((sameDirectory_iff abs _ _).mpr (Or.inl (h1.trans hfc.symm))))
+      obtain ⟨m, hm, h₁, h₂⟩ := ih { rootDir := fc.rootDir, files := putAll fc.files acc.files } (Or.inr hfc) hr
+      refine ⟨m, by simp only [mergeFrom, hstep]; exact hm, fun _ => ?_, fun hn => absurd List.mem_cons_self (hn fc)⟩
+      by_cases hex : ∃ c, some c ∈ r
+      · exact h₁ hex
+      · rw [h₂ (fun c hc => hex ⟨c, hc⟩)]
+        exact hfc
+
+/-- a `Sorted` list always merges (from an accumulator without root directory), whatever `filepath.Abs` is; the result
+    carries the root directory `a` unless every cache of the list has the empty one -/
+theorem mergeFrom_sorted (abs : String → String) (a : String) (cs : List (Option FileCache)) (acc : FileCache)
+    (hacc : acc.rootDir = "") (hs : Sorted a cs) :
+    ∃ m, mergeFrom abs acc cs = .ok m ∧ (m.rootDir = a ∨ (m.rootDir = "" ∧ AllRoot "" cs)) := by
+  obtain ⟨pre, post, he, hpre, hpost⟩ := hs
+  subst he
+  obtain ⟨m₁, hm₁, a₁, b₁⟩ := mergeFrom_allRoot abs "" pre acc (Or.inl hacc) hpre
+  have hroot₁ : m₁.rootDir = "" := by
+    by_cases hex : ∃ c, some c ∈ pre
+    · exact a₁ hex
+    · rw [b₁ (fun c hc => hex ⟨c, hc⟩)]
+      exact hacc
+  obtain ⟨m₂, hm₂, a₂, b₂⟩ := mergeFrom_allRoot abs a post m₁ (Or.inl hroot₁) hpost
+  refine ⟨m₂, by rw [mergeFrom_append, hm₁]; exact hm₂, ?_⟩
+  by_cases hex : ∃ c, some c ∈ post
+  · exact Or.inl (a₂ hex)
+  · refine Or.inr ⟨by rw [b₂ (fun c hc => hex ⟨c, hc⟩)]; exact hroot₁, fun c hc => ?_⟩
+    rcases List.mem_append.mp hc with h | h
+    · exact hpre c h
+    · exact absurd ⟨c, h⟩ hex
+
+/-- the merge of a `Sorted` list does not depend on `filepath.Abs` -/
+theorem mergeFrom_sorted_indep (f g : String → String) (a : String) (cs : List (Option FileCache)) (acc : FileCache)
+    (hacc : acc.rootDir = "") (hs : Sorted a cs) : mergeFrom f acc cs = mergeFrom g acc cs := by
+  obtain ⟨pre, post, he, hpre, hpost⟩ := hs
+  subst he
+  rw [mergeFrom_append, mergeFrom_append, mergeFrom_allRoot_indep f g "" pre acc (Or.inl hacc) hpre]
+  obtain ⟨m₁, hm₁, a₁, b₁⟩ := mergeFrom_allRoot g "" pre acc (Or.inl hacc) hpre
+  have hroot₁ : m₁.rootDir = "" := by
+    by_cases hex : ∃ c, some c ∈ pre
+    · exact a₁ hex
+    · rw [b₁ (fun c hc => hex ⟨c, hc⟩)]
+      exact hacc
+  rw [hm₁]
+  exact mergeFrom_allRoot_indep f g a post m₁ (Or.inl hroot₁) hpost
+
+/-- what a recursive call of the discovery guarantees about the root directory of its result, given the list of caches it
+    was handed: the absolute root, or the empty one while nothing has been loaded -/
+def RootOk (a : String) (caches : List (Option FileCache)) (sc : FileCache) : Prop :=
+  sc.rootDir = a ∨ (sc.rootDir = "" ∧ AllRoot "" caches)
+
+/-- invariant of the two loops of `subworkflowCache`: the list stays `Sorted` and only grows -/
+def LoopInv (a : String) (caches : List (Option FileCache)) : Except Err (List (Option FileCache)) → Prop
+  | .ok cs => Sorted a cs ∧ ∃ extra, cs = caches ++ extra
   | .error _ => True
+
+/-- the hypothesis about the recursive calls -/
+def RecurRootOk (a : String) (recur : Wf → List (Option FileCache) → List String → Except Err (Option FileCache)) : Prop :=
+  ∀ w cs p sc, Sorted a cs → recur w cs p = .ok (some sc) → RootOk a cs sc
+
+theorem loopInv_append_some {a : String} {caches cs : List (Option FileCache)} {sc : FileCache}
+    (hb : LoopInv a caches (.ok cs)) (hsc : RootOk a cs sc) : LoopInv a caches (.ok (cs ++ [some sc])) := by
+  obtain ⟨hs, extra, he⟩ := hb
+  refine ⟨?_, extra ++ [some sc], by rw [he, List.append_assoc]⟩
+  rcases hsc with h | ⟨h0, hall⟩
+  · exact sorted_append_root hs h
+  · exact sorted_append_empty hall h0
+
+section
+variable {P I D : Type}
+
+theorem visitStep_inv (env : Env P I D) (a : String) (caches : List (Option FileCache))
+    (recur : Wf → List (Option FileCache) → List String → Except Err (Option FileCache)) (parents : List String)
+    (hrecur : RecurRootOk a recur) (b : Except Err (List (Option FileCache))) (kv : String × CtxFile)
+    (hb : LoopInv a caches b) : LoopInv a caches (visitStep env recur parents b kv) := by
+  cases b with
+  | error e => exact trivial
+  | ok cs =>
+    simp only [visitStep]
+    split
+    · exact trivial
+    · split
+      · exact trivial
+      · rename_i subwf _
+        cases hr : recur subwf cs (parents ++ [kv.2.absPath]) with
+        | error e => exact trivial
+        | ok fc =>
+          cases fc with
+          | none =>
+            obtain ⟨hs, extra, he⟩ := hb
+            exact ⟨sorted_append_none hs, extra ++ [none], by rw [he, List.append_assoc]⟩
+          | some sc => exact loopInv_append_some hb (hrecur _ _ _ _ hb.1 hr)
+
+theorem visitSupplied_inv (env : Env P I D) (a : String) (caches : List (Option FileCache)) (sup : FileCache)
+    (recur : Wf → List (Option FileCache) → List String → Except Err (Option FileCache)) (parents : List String)
+    (hrecur : RecurRootOk a recur) (b : Except Err (List (Option FileCache))) (path : String)
+    (hb : LoopInv a caches b) : LoopInv a caches (visitSupplied env sup recur parents b path) := by
+  cases b with
+  | error e => exact trivial
+  | ok cs =>
+    simp only [visitSupplied]
+    split
+    · exact hb
+    · split
+      · exact trivial
+      · split
+        · exact trivial
+        · rename_i subwf _
+          cases hr : recur subwf cs (parents ++ [path]) with
+          | error e => exact trivial
+          | ok fc =>
+            cases fc with
+            | none => exact hb
+            | some sc => exact loopInv_append_some hb (hrecur _ _ _ _ hb.1 hr)
+
+theorem suppliedLoop_inv (env : Env P I D) (a : String) (caches : List (Option FileCache)) (supplied : Option FileCache)
+    (recur : Wf → List (Option FileCache) → List String → Except Err (Option FileCache)) (parents : List String)
+    (hrecur : RecurRootOk a recur) (refs : List String) (hs : Sorted a caches) :
+    LoopInv a caches (suppliedLoop env supplied recur parents caches refs) := by
+  cases supplied with
+  | none => exact ⟨hs, [], by simp⟩
+  | some sup =>
+    exact foldl_inv _ (LoopInv a caches) (visitSupplied_inv env a caches sup recur parents hrecur) refs _ ⟨hs, [], by simp⟩
+
+/-- a sub-workflow cache, when there is one, carries the absolute spelling of the root directory — or, when it is the
+    merge of caches none of which was loaded, the empty one -/
+theorem subworkflowCache_root (env : Env P I D) (rootDir : String) (supplied : Option FileCache) (fuel : Nat) :
+    ∀ (wf : Wf) (caches : List (Option FileCache)) (parents : List String) (sc : FileCache),
+    Sorted (env.abs rootDir) caches →
+    subworkflowCache env fuel wf rootDir caches parents supplied = .ok (some sc) →
+    RootOk (env.abs rootDir) caches sc := by
+  induction fuel with
+  | zero => intro wf caches parents sc _ h; simp [subworkflowCache] at h
+  | succ n ih =>
+    intro wf caches parents sc hs h
+    have hrecur : RecurRootOk (env.abs rootDir) (fun w c p => subworkflowCache env n w rootDir c p supplied) :=
+      fun w cs p sc hcs hr => ih w cs p sc hcs hr
+    have hloop := suppliedLoop_inv env (env.abs rootDir) caches supplied _ parents hrecur wf.refs hs
+    simp only [subworkflowCache] at h
+    split at h
+    · cases h
+    · rename_i caches₀ hsl
+      rw [hsl] at hloop
+      obtain ⟨hs₀, extra, he⟩ := hloop
+      split at h
+      · split at h
+        · cases h
+        · split at h
+          · cases h
+          · rename_i m hm
+            cases h
+            obtain ⟨m', hm', hroot⟩ := mergeFrom_sorted env.abs (env.abs rootDir) caches₀ { rootDir := "", files := [] } rfl hs₀
+            have : m' = sc := by
+              have := hm'.symm.trans hm
+              cases this
+              rfl
+            subst this
+            rcases hroot with h | ⟨h0, hall⟩
+            · exact Or.inl h
+            · exact Or.inr ⟨h0, allRoot_left (he ▸ hall)⟩
+      · split at h
+        · cases h
+        · rename_i stepCache hload
+          split at h
+          · cases h
+          · rename_i cs hvisit
+            split at h
+            · cases h
+            · rename_i m hm
+              cases h
+              refine Or.inl ?_
+              rw [mergeFrom_append_root env.abs cs stepCache _ _ hm]
+              exact (loadCache_spec env rootDir _ stepCache hload).1
+
+/-- a workflow without foreach steps, with nothing collected so far, has no sub-workflow cache -/
+theorem subworkflowCache_no_refs (env : Env P I D) (fuel : Nat) (wf : Wf) (rootDir : String)
+    (parents : List String) (supplied : Option FileCache) (h : wf.refs = []) :
+    subworkflowCache env (fuel + 1) wf rootDir [] parents supplied = .ok none := by
+  cases supplied <;> simp [subworkflowCache, suppliedLoop, remaining, h]
 
 /-- the same environment with another `filepath.Abs` (another working directory) -/
 def withAbs (env : Env P I D) (f : String → String) : Env P I D :=
@@ -72,80 +286,95 @@ theorem loadCache_withAbs (env : Env P I D) (f g : String → String) (rootDir :
   simp only []
   rw [h]
 
-/-- sub-workflow discovery consults `filepath.Abs` for the root directory only (all the caches it merges carry the
-    same root directory string, for which `sameDirectory` needs no `filepath.Abs`) -/
+/-- sub-workflow discovery consults `filepath.Abs` for the root directory only (the lists of caches it merges are
+    `Sorted`: `sameDirectory` is only asked about two equal strings) -/
 theorem subworkflowCache_withAbs (env : Env P I D) (f g : String → String) (rootDir : String) (h : f rootDir = g rootDir)
-    (fuel : Nat) : ∀ (wf : Wf) (caches : List (Option FileCache)) (parents : List String),
-    AllRoot (g rootDir) caches →
-    subworkflowCache (withAbs env f) fuel wf rootDir caches parents =
-      subworkflowCache (withAbs env g) fuel wf rootDir caches parents := by
+    (supplied : Option FileCache) (fuel : Nat) : ∀ (wf : Wf) (caches : List (Option FileCache)) (parents : List String),
+    Sorted (g rootDir) caches →
+    subworkflowCache (withAbs env f) fuel wf rootDir caches parents supplied =
+      subworkflowCache (withAbs env g) fuel wf rootDir caches parents supplied := by
   induction fuel with
   | zero => intro wf caches parents _; rfl
   | succ n ih =>
     intro wf caches parents hall
-    simp only [subworkflowCache, loadCache_withAbs env f g rootDir wf.refs h]
-    split
-    · rfl
-    · split
-      · rfl
-      · rename_i stepCache hload
-        have hsc : stepCache.rootDir = g rootDir := (loadCache_spec (withAbs env g) rootDir wf.refs stepCache hload).1
-        have key := foldl_congr_inv
-          (visitStep (withAbs env f) (fun w c p => subworkflowCache (withAbs env f) n w rootDir c p) parents)
-          (visitStep (withAbs env g) (fun w c p => subworkflowCache (withAbs env g) n w rootDir c p) parents)
-          (VisitInv (g rootDir))
+    have hrecur : RecurRootOk (g rootDir) (fun w c p => subworkflowCache (withAbs env g) n w rootDir c p supplied) :=
+      fun w cs p sc hcs hr => subworkflowCache_root (withAbs env g) rootDir supplied n w cs p sc hcs hr
+    -- the loop over the supplied files
+    have hsup : suppliedLoop (withAbs env f) supplied (fun w c p => subworkflowCache (withAbs env f) n w rootDir c p supplied)
+          parents caches wf.refs =
+        suppliedLoop (withAbs env g) supplied (fun w c p => subworkflowCache (withAbs env g) n w rootDir c p supplied)
+          parents caches wf.refs := by
+      cases supplied with
+      | none => rfl
+      | some sup =>
+        exact (foldl_congr_inv
+          (visitSupplied (withAbs env f) sup (fun w c p => subworkflowCache (withAbs env f) n w rootDir c p (some sup)) parents)
+          (visitSupplied (withAbs env g) sup (fun w c p => subworkflowCache (withAbs env g) n w rootDir c p (some sup)) parents)
+          (LoopInv (g rootDir) caches)
           (by
-            intro b kv hb
+            intro b path hb
             cases b with
             | error e => rfl
             | ok cs =>
-              simp only [visitStep]
+              simp only [visitSupplied]
               rw [show (withAbs env f).fromYAML = (withAbs env g).fromYAML from rfl]
               split
               · rfl
               · split
                 · rfl
-                · rw [ih _ cs _ hb])
-          (by
-            intro b kv hb
-            cases b with
-            | error e => exact trivial
-            | ok cs =>
-              simp only [visitStep]
-              split
-              · exact trivial
-              · split
-                · exact trivial
-                · rename_i subwf _
-                  cases hr : subworkflowCache (withAbs env g) n subwf rootDir cs (parents ++ [kv.2.absPath]) with
-                  | error e => exact trivial
-                  | ok fc =>
-                    intro c hc
-                    rcases List.mem_append.mp hc with hc | hc
-                    · exact hb c hc
-                    · simp only [List.mem_singleton] at hc
-                      subst hc
-                      exact subworkflowCache_root (withAbs env g) n subwf rootDir cs _ c hr)
-          stepCache.files (.ok caches) hall
-        rw [key.1]
-        cases hv : List.foldl (visitStep (withAbs env g) (fun w c p => subworkflowCache (withAbs env g) n w rootDir c p) parents)
-            (.ok caches) stepCache.files with
-        | error e => rfl
-        | ok cs' =>
-          have hinv : AllRoot (g rootDir) cs' := by
-            have := key.2
-            rw [hv] at this
-            exact this
-          have hm : mergeFileCaches (withAbs env f).abs (cs' ++ [some stepCache]) =
-              mergeFileCaches (withAbs env g).abs (cs' ++ [some stepCache]) :=
-            mergeFrom_allRoot_indep _ _ (g rootDir) _ _ (Or.inl rfl) (by
-              intro c hc
-              rcases List.mem_append.mp hc with hc | hc
-              · exact hinv c hc
-              · simp only [List.mem_singleton, Option.some.injEq] at hc
-                subst hc
-                exact hsc)
+                · split
+                  · rfl
+                  · rw [ih _ cs _ hb.1])
+          (visitSupplied_inv (withAbs env g) (g rootDir) caches sup _ parents hrecur)
+          wf.refs (.ok caches) ⟨hall, [], by simp⟩).1
+    have hloop := suppliedLoop_inv (withAbs env g) (g rootDir) caches supplied _ parents hrecur wf.refs hall
+    simp only [subworkflowCache, hsup, loadCache_withAbs env f g rootDir _ h]
+    split
+    · rfl
+    · rename_i caches₀ hsl
+      rw [hsl] at hloop
+      obtain ⟨hs₀, _, _⟩ := hloop
+      split
+      · split
+        · rfl
+        · have hm : mergeFileCaches (withAbs env f).abs caches₀ = mergeFileCaches (withAbs env g).abs caches₀ :=
+            mergeFrom_sorted_indep _ _ (g rootDir) _ { rootDir := "", files := [] } rfl hs₀
           simp only [hm]
+      · split
+        · rfl
+        · rename_i stepCache hload
+          have hsc : stepCache.rootDir = g rootDir := (loadCache_spec (withAbs env g) rootDir _ stepCache hload).1
+          have key := foldl_congr_inv
+            (visitStep (withAbs env f) (fun w c p => subworkflowCache (withAbs env f) n w rootDir c p supplied) parents)
+            (visitStep (withAbs env g) (fun w c p => subworkflowCache (withAbs env g) n w rootDir c p supplied) parents)
+            (LoopInv (g rootDir) caches₀)
+            (by
+              intro b kv hb
+              cases b with
+              | error e => rfl
+              | ok cs =>
+                simp only [visitStep]
+                rw [show (withAbs env f).fromYAML = (withAbs env g).fromYAML from rfl]
+                split
+                · rfl
+                · split
+                  · rfl
+                  · rw [ih _ cs _ hb.1])
+            (visitStep_inv (withAbs env g) (g rootDir) caches₀ _ parents hrecur)
+            stepCache.files (.ok caches₀) ⟨hs₀, [], by simp⟩
+          rw [key.1]
+          cases hv : List.foldl (visitStep (withAbs env g) (fun w c p => subworkflowCache (withAbs env g) n w rootDir c p supplied) parents)
+              (.ok caches₀) stepCache.files with
+          | error e => rfl
+          | ok cs' =>
+            have hinv : Sorted (g rootDir) cs' := by
+              have := key.2
+              rw [hv] at this
+              exact this.1
+            have hm : mergeFileCaches (withAbs env f).abs (cs' ++ [some stepCache]) =
+                mergeFileCaches (withAbs env g).abs (cs' ++ [some stepCache]) :=
+              mergeFrom_sorted_indep _ _ (g rootDir) _ { rootDir := "", files := [] } rfl (sorted_append_root hinv hsc)
+            simp only [hm]
 
 /-- sub-workflow discovery depends on the root directory through its `filepath.Abs` only -/
 theorem loadCache_root_congr (env : Env P I D) (r₁ r₂ : String) (paths : List String) (h : env.abs r₁ = env.abs r₂) :
@@ -154,14 +383,31 @@ theorem loadCache_root_congr (env : Env P I D) (r₁ r₂ : String) (paths : Lis
   simp only []
   rw [h]
 
-theorem subworkflowCache_root_congr (env : Env P I D) (r₁ r₂ : String) (h : env.abs r₁ = env.abs r₂) (fuel : Nat) :
+theorem subworkflowCache_root_congr (env : Env P I D) (r₁ r₂ : String) (h : env.abs r₁ = env.abs r₂)
+    (supplied : Option FileCache) (fuel : Nat) :
     ∀ (wf : Wf) (caches : List (Option FileCache)) (parents : List String),
-    subworkflowCache env fuel wf r₁ caches parents = subworkflowCache env fuel wf r₂ caches parents := by
+    subworkflowCache env fuel wf r₁ caches parents supplied = subworkflowCache env fuel wf r₂ caches parents supplied := by
   induction fuel with
   | zero => intro wf caches parents; rfl
   | succ n ih =>
     intro wf caches parents
-    simp only [subworkflowCache, loadCache_root_congr env r₁ r₂ wf.refs h, ih]
+    simp only [subworkflowCache, loadCache_root_congr env r₁ r₂ _ h, ih]
+
+/-- the discovery reads the files of the supplied cache only, not its root directory -/
+theorem subworkflowCache_supplied_congr (env : Env P I D) (s₁ s₂ : FileCache) (h : s₁.files = s₂.files) (rootDir : String)
+    (fuel : Nat) : ∀ (wf : Wf) (caches : List (Option FileCache)) (parents : List String),
+    subworkflowCache env fuel wf rootDir caches parents (some s₁) =
+      subworkflowCache env fuel wf rootDir caches parents (some s₂) := by
+  induction fuel with
+  | zero => intro wf caches parents; rfl
+  | succ n ih =>
+    intro wf caches parents
+    have hv : ∀ recur, visitSupplied env s₁ recur parents = visitSupplied env s₂ recur parents := by
+      intro recur
+      funext acc path
+      simp only [visitSupplied, h]
+    simp only [subworkflowCache, suppliedLoop, remaining, h, hv, ih]
+    rfl
 
 /-- `filepath.Abs` of an absolute path is that path (cleaned): a property of the real function, a hypothesis here -/
 def AbsIdempotent (env : Env P I D) : Prop := ∀ s, env.abs (env.abs s) = env.abs s
